@@ -46,7 +46,9 @@ def cases(tier, seed):
     cs.append({'scen': 'c18_cat', 's': {'d': 2, 'dim': 0, 'ds': [2, 3, 2], 'B': B}})
     cs.append({'scen': 'c18_cat', 's': {'d': 2, 'dim': 1, 'kinds': ['tt', 'ttm', 'tt'], 'B': B}})
     cs.append({'scen': 'c18_cat', 's': {'d': 2, 'dim': 1, 'kinds': ['ttm', 'ttm', 'tt'], 'B': B}})
-    cs.append({'scen': 'c18_cat', 's': {'d': 2, 'dim': 1, 'n': 3, 'B': B}})
+    for d in (2, 3):
+        for dim in range(-d, d):
+            cs.append({'scen': 'c18_cat', 's': {'d': d, 'dim': dim, 'n': 3, 'B': B}})      # three operands: every later operand is checked against the first
     # arguments that must fit the operand
     for d in orders:
         for kind in ('tt', 'ttm'):
